@@ -55,9 +55,9 @@ def run(ctx):
     jobs.sort(key=lambda j: -int(j[1][2]) if str(j[1][2]).isdigit() else 0)
     common.parallel(lambda j: common.run_harness(ctx, j[0], j[1], label=j[2], env=j[3] if len(j) > 3 else None), jobs)
     common.align_jobs(ctx, jobs, lambda j: j[2] in ("asm", "c64", "c32") and str(j[1][1]) == "3" and len(j[1]) == 4)
-    common.mid_lengths(ctx, ["aead:0", "aead:1", "aead:2", "aead-ad:0", "aead-ad:1", "aead-ad:2", "inc:0", "inc:1", "inc:2", "masked:0", "masked:1", "masked:2"], ("asm", "c64", "c32", "dxor", "generic") if ctx.thorough else ("asm", "c32"))
+    common.mid_lengths(ctx, ["aead:0", "aead:1", "aead:2", "aead-ad:0", "aead-ad:1", "aead-ad:2", "inc:0", "inc:1", "inc:2", "masked:0", "masked:1", "masked:2", "masked-ad:0", "masked-ad:1", "masked-ad:2"], ("asm", "c64", "c32", "dxor", "generic") if ctx.thorough else ("asm", "c32"))
     if ctx.thorough:
-        common.huge_lengths(ctx, ["aead:0", "aead:1", "aead:2", "aead-ad:0", "aead-ad:1", "aead-ad:2", "inc:0", "inc:1", "inc:2", "masked:1"])
+        common.huge_lengths(ctx, ["aead:0", "aead:1", "aead:2", "aead-ad:0", "aead-ad:1", "aead-ad:2", "inc:0", "inc:1", "inc:2", "masked:1", "masked-ad:1", "masked-ad:2"])
     ctx.assumptions += [
         "reference model = ASCON v1.2 as bound to all shipped KAT vectors (frozen digests in /verif/ref)",
         "value completeness per shape rests on the linearised-permutation argument (DESIGN 3.1) + C08 + C11; real-permutation runs use 4 value patterns and single-bit walks",
